@@ -249,8 +249,13 @@ def parity_rule(ctx):
     node = fi.node
     loops = [st for st in node.body if isinstance(st, (ast.For, ast.While))]
     if not loops:
-        raise AnalysisError("pyscf_interface.parity: excitation loop not found")
+        # a closed-form / vectorised parity is a different algorithm: the move-by-move rules do not apply to it and
+        # its combinatorics is not something this check decides
+        ctx.rep.note("pyscf_interface.parity: no move-by-move loop; the sequential-occupation rules (PAIR-1) are not "
+                     "applicable to this shape of the code and the sign convention is not decided")
+        return
     loop = loops[-1]
+    _parity_segment(ctx, fi)
     updated, counted = set(), set()
     for nd in ast.walk(loop):
         if isinstance(nd, (ast.Assign, ast.AugAssign)):
@@ -282,6 +287,36 @@ def parity_rule(ctx):
                     why.append(f"{u} = {ast.unparse(v)} may alias the reference")
     ctx.ob("PAIR-1", "parity: the running occupation is a private copy (the caller's reference is not modified)",
            fresh and bool(updated), "; ".join(why) or f"{sorted(updated)} built by arithmetic / copy", fi)
+
+
+def _parity_segment(ctx, fi):
+    """The electrons hopped over lie strictly between the two orbitals of the move whichever of them is lower: both
+    bounds of the counted segment must depend on the creation *and* the destruction index (min / max, a sort, a
+    comparison ...).  A segment running from one list's entry to the other's is empty for downward moves."""
+    pev = Evaluator(ctx.p)
+    fr = pev.eval_function(fi)
+    r = pev.result(fr)
+    prm = [x.name for x in fi.params]
+    if r is None or len(prm) < 3:
+        return
+    cre, des = sym(prm[1]), sym(prm[2])
+    segs = []
+    for x in subterms(r):
+        if x.op == "getitem" and x.args[1].op == "slice" and len(x.args[1].args) >= 2:
+            lo, hi = x.args[1].args[0], x.args[1].args[1]
+            if hasattr(lo, "op") and hasattr(hi, "op") and lo.op != "const" and hi.op != "const":
+                segs.append((lo, hi))
+    if not segs:
+        ctx.rep.note("pyscf_interface.parity: no counted segment d[lo:hi] found; bound-symmetry rule not applicable")
+        return
+
+    def deps(t):
+        return {n_ for n_, s_ in (("cre", cre), ("des", des)) if any(y is s_ for y in subterms(t))}
+    bad = [(lo, hi) for lo, hi in segs if deps(lo) != {"cre", "des"} or deps(hi) != {"cre", "des"}]
+    ctx.ob("PAIR-1", "parity: both ends of the counted segment depend on the creation and the destruction index "
+           "(lower = min, upper = max)", not bad,
+           f"{len(segs)} segment(s); " + ("; ".join(f"lower bound from {sorted(deps(lo))}, upper bound from {sorted(deps(hi))}"
+                                                      for lo, hi in bad) if bad else "bounds are symmetric in the pair"), fi)
 
 
 _cc_cache = {}
